@@ -221,10 +221,10 @@ class SymStr(str):
         return "".join(chr(c) for c in out)
 
     def __hash__(self):
-        # short strings (e.g. one character used as a dict key by the code under test) are pinned
+        # very short strings (e.g. one character used as a dict / set key by the code under test) are pinned
         # by forking, so that the hash is the real one; long ones only get an identity hash inside
         # the scope that explicitly allows it (lru_cache keys), never silently
-        if self._nsym() <= 2 and core.space() is not None:
+        if len(self.items) <= 2 and core.space() is not None:
             return hash(self._concretize_by_forking())
         if _hash_ok[0]:
             return self._h
